@@ -16,7 +16,7 @@ import (
 func init() {
 	register(&Check{
 		ID:   "C12",
-		Rule: "case = (schema IR, spelling): a random struct schema (all id classes, three requiredness words, nested annotations to depth 3, nocopy option, ignored untagged/unexported fields) is rendered into struct tags in one of 8 spellings (canonical frugal; thrift tag with name prefix; both tags with a conflicting thrift tag; scalar annotations omitted; id-only tags; byte for i8; package-qualified struct/enum names; spaces around every token) and built as a fresh Go type, next to the canonically spelled type of the same IR. Oracles: the harness' own tag parser reads the spelled type back to the IR (generator self-check); EncodeObject bytes equal the reference encoder driven by the IR; DecodeObject equals the reference decoder; the spelled and the canonical type produce identical bytes and decode identically; ignored fields are neither written nor touched. Static zoo spellings (Spelling, ThriftOnly, BothTags, Ignoring) are included. distinct = distinct (type shape, spelling); non-trivial = the spelling differs textually from the canonical one in at least one tag",
+		Rule: "case = (schema IR, spelling): a random struct schema (all id classes, three requiredness words, nested annotations to depth 3, nocopy option, ignored untagged/unexported fields) is rendered into struct tags in one of 9 spellings (canonical frugal; thrift tag with name prefix; both tags with a conflicting thrift tag; scalar annotations omitted; id-only tags; byte for i8; package-qualified struct/enum names; spaces around every token, in frugal and in thrift tags) and built as a fresh Go type, next to the canonically spelled type of the same IR. Oracles: the harness' own tag parser reads the spelled type back to the IR (generator self-check); EncodeObject bytes equal the reference encoder driven by the IR; DecodeObject equals the reference decoder; the spelled and the canonical type produce identical bytes and decode identically; ignored fields are neither written nor touched. Static zoo spellings (Spelling, ThriftOnly, BothTags, Ignoring) are included. distinct = distinct (type shape, spelling); non-trivial = the spelling differs textually from the canonical one in at least one tag",
 		Plan: func(tier string) []BuildPlan {
 			if tier == "thorough" {
 				return []BuildPlan{{"plain", 200000}, {"checkptr", 40000}}
@@ -27,12 +27,12 @@ func init() {
 	})
 }
 
-var c12Spellings = []string{"canonical", "thrift", "both-conflict", "omit-scalar-annot", "id-only", "byte", "pkg-qualified", "spaces"}
+var c12Spellings = []string{"canonical", "thrift", "both-conflict", "omit-scalar-annot", "id-only", "byte", "pkg-qualified", "spaces", "thrift-spaces"}
 
 // annot renders a type annotation in the given spelling.
 func annot(r *gen.Rand, t *schema.Type, sp string) string {
 	sep := func(s string) string {
-		if sp == "spaces" {
+		if sp == "spaces" || sp == "thrift-spaces" {
 			return strings.Repeat(" ", r.Intn(3)) + s + strings.Repeat(" ", r.Intn(3))
 		}
 		return s
@@ -76,7 +76,7 @@ func annotOptional(t *schema.Type) bool {
 
 func spellTag(r *gen.Rand, f *schema.Field, sp string) string {
 	pad := func(s string) string {
-		if sp == "spaces" {
+		if sp == "spaces" || sp == "thrift-spaces" {
 			return strings.Repeat(" ", r.Intn(3)) + s + strings.Repeat(" ", r.Intn(3))
 		}
 		return s
@@ -101,6 +101,8 @@ func spellTag(r *gen.Rand, f *schema.Field, sp string) string {
 	switch sp {
 	case "thrift":
 		return `json:"x" thrift:"` + strings.ToLower(f.Name) + `,` + body + `"`
+	case "thrift-spaces":
+		return `thrift:"` + pad(strings.ToLower(f.Name)) + `,` + body + `"`
 	case "both-conflict":
 		// the thrift tag disagrees on id and requiredness: the frugal tag must win
 		other := fmt.Sprintf("%d,%s", (int(f.ID)+7)%65536, schema.Req((int(f.Req)+1)%3))
